@@ -51,3 +51,96 @@ package blockwise
 //@   trusted
 //@   modifies anything
 //@   ensures w != nil ==> w.response == old(w.response)
+//
+// ---- C04: the sender's block arithmetic ----------------------------------------------------------------
+//
+// createSendingMessage cuts one block out of the body of the message being sent. For the block option
+// value it is given (szx0, num0 - the block the peer asked for / acknowledged) and the two limits:
+// szx = min(szx0, maxSZX); the block starts at body offset off = num0 * size(szx) (+ one buffer for
+// Block1: the acknowledged block is skipped); at most bufferSize(szx, maxMessageSize) bytes are read
+// from exactly that offset; `more` is set iff the body continues after what was read; the block option
+// written carries (szx, off / size(szx), more) and the size option the total body size; on every error
+// the message acquired for the block is given back to the pool and nothing is returned.
+//
+// Assumed contracts (unverified surroundings):
+//
+//@ func (Client) AcquireMessage(ctx context.Context) (m *pool.Message)
+//@   trusted
+//@   ensures m != nil && fresh(m) && len(m.msg.Options) == 0 && (cap(m.msg.Options) == 0 || fresh(m.msg.Options)) && (cap(m.valueBuffer) == 0 || fresh(m.valueBuffer))
+//
+//@ func (Client) ReleaseMessage(m *pool.Message)
+//@   trusted
+//
+//@ func payloadSizeError(err error) (e error)
+//@   trusted
+//@   ensures e != nil
+//
+//@ func (*BlockWise) createSendingMessage(sendingMessage *pool.Message, maxSZX SZX, maxMessageSize uint32, block uint32) (sendMessage *pool.Message, more bool, err error)
+//@   requires b != nil && sendingMessage != nil && maxSZX <= 7 && len(sendingMessage.msg.Options) < 100000
+//@   modifies anything
+//@   opaque-calls pure
+//@   ensures [bad-option-nothing-acquired] block > 16777215 ==> err != nil && notCalled(AcquireMessage)
+//@   ensures [offset] called(Seek) ==> callArg(Seek, 0, 1) == (block / 16) * szxSize(min(block % 8, maxSZX)) + ite(old(sendingMessage.msg.Code) == 2 || old(sendingMessage.msg.Code) == 3, callRes(bufferSize, 0, 0), 0) && callArg(Seek, 0, 2) == 0
+//@   ensures [window] called(bufferSize) ==> callArg(bufferSize, 0, 0) == min(block % 8, maxSZX) && callArg(bufferSize, 0, 1) == maxMessageSize
+//@   ensures [reads-one-window-at-offset] called(ReadFull) ==> len(callArg(ReadFull, 0, 1)) == callRes(bufferSize, 0, 0) && callRes(Seek, 0, 1) == nil && callRes(Seek, 0, 0) == callArg(Seek, 0, 1)
+//@   ensures [more-iff-body-continues] err == nil ==> (more <==> callRes(Seek, 0, 0) + callRes(ReadFull, 0, 0) != callRes(BodySize, 0, 0))
+//@   ensures [short-read-only-at-end] err == nil && callRes(ReadFull, 0, 0) < callRes(bufferSize, 0, 0) ==> callRes(Seek, 0, 0) + callRes(ReadFull, 0, 0) == callRes(BodySize, 0, 0)
+//@   ensures [block-option] err == nil ==> callCount(EncodeBlockOption) == 1 && callArg(EncodeBlockOption, 0, 0) == min(block % 8, maxSZX) && callArg(EncodeBlockOption, 0, 1) == callRes(Seek, 0, 0) / szxSize(min(block % 8, maxSZX)) && (callArg(EncodeBlockOption, 0, 2) <==> more) && callCount(SetOptionUint32) == 2 && callArg(SetOptionUint32, 1, 1) == ite(old(sendingMessage.msg.Code) == 2 || old(sendingMessage.msg.Code) == 3, 27, 23) && callArg(SetOptionUint32, 1, 2) == callRes(EncodeBlockOption, 0, 0)
+//@   ensures [size-option] err == nil ==> callArg(SetOptionUint32, 0, 1) == ite(old(sendingMessage.msg.Code) == 2 || old(sendingMessage.msg.Code) == 3, 60, 28) && callArg(SetOptionUint32, 0, 2) == callRes(BodySize, 0, 0)
+//@   ensures [error-gives-back] err != nil ==> sendMessage == nil && (called(AcquireMessage) ==> callCount(ReleaseMessage) == 1 && callArg(ReleaseMessage, 0, 1) == callRes(AcquireMessage, 0, 0))
+//@   ensures [success-keeps] err == nil ==> sendMessage == callRes(AcquireMessage, 0, 0) && notCalled(ReleaseMessage)
+//
+// ---- C04: the receiver only ever appends the next block ------------------------------------------------
+//
+// processReceivedMessage (one incoming block of a body): a message without token, a GET/DELETE or a
+// message without the block option is passed on untouched. Otherwise the block is written into the
+// body being assembled ONLY if it starts exactly at the number of bytes already held (offset = NUM x
+// block size = bytes held): duplicated, stale, early or foreign blocks change nothing and are never
+// delivered. When the last block (M = 0) has been appended the assembled message is delivered exactly
+// once, after its cache entry has been removed; while more blocks are outstanding nothing is delivered
+// and the answer asks for the following block with the negotiated size min(SZX, maxSZX). Any failure
+// after the assembly entry was obtained forgets the transfer (the entry is deleted) and the entry's
+// lock is given back on every path.
+//
+// Assumed contracts (unverified surroundings):
+//
+//@ func (*BlockWise) getSentRequest(token message.Token) (m *pool.Message)
+//@   trusted
+//@   ensures m != nil ==> len(m.msg.Options) < 1000000
+//
+//@ func (*BlockWise) getValidUntil(sentRequest *pool.Message) (t time.Time)
+//@   trusted
+//
+//@ func isObserveResponse(msg *pool.Message) (b bool)
+//@   trusted
+//
+//@ func (*BlockWise) handleObserveResponse(sentRequest *pool.Message) (token message.Token, validUntil time.Time, err error)
+//@   trusted
+//
+//@ func (*BlockWise) getCachedReceivedMessage(mg *messageGuard, r *pool.Message, tokenStr uint64, validUntil time.Time) (m *pool.Message, closeFn func(), err error)
+//@   trusted
+//@   ensures err == nil ==> m != nil && closeFn != nil && msgInv(m)
+//
+//@ func (*BlockWise) getPayloadFromCachedReceivedMessage(r *pool.Message, cachedReceivedMessage *pool.Message) (f *memfile.File, size int64, err error)
+//@   trusted
+//@   ensures err == nil ==> size >= 0
+//
+//@ func copyToPayloadFromOffset(r *pool.Message, payloadFile *memfile.File, offset int64) (size int64, err error)
+//@   trusted
+//@   ensures err == nil ==> size >= offset
+//
+//@ func (*BlockWise) processReceivedMessage(w *responsewriter.ResponseWriter, r *pool.Message, maxSzx SZX, next func(w *responsewriter.ResponseWriter, r *pool.Message), blockType message.OptionID, sizeType message.OptionID) (err error)
+//@   requires b != nil && w != nil && r != nil && maxSzx <= 7 && b.receivingMessagesCache != nil && b.receivingMessagesCache.Map != nil && b.sendingMessagesCache != nil && b.sendingMessagesCache.Map != nil
+//@   modifies anything
+//@   opaque-calls pure
+//@   lockinv [no-nil-elements] forall k int :: {present(b.receivingMessagesCache.Map.data, k)} present(b.receivingMessagesCache.Map.data, k) ==> b.receivingMessagesCache.Map.data[k] != nil
+//@   ensures [passes-through-plain] notCalled(DecodeBlockOption) && err == nil ==> callCount(next) == 1 && callArg(next, 0, 0) == w && callArg(next, 0, 1) == r && notCalled(copyToPayloadFromOffset) && notCalled(SetMessage)
+//@   ensures [at-most-one-delivery] callCount(next) <= 1 && callCount(copyToPayloadFromOffset) <= 1
+//@   ensures [appends-only-at-end] called(copyToPayloadFromOffset) ==> callArg(copyToPayloadFromOffset, 0, 2) == callRes(getPayloadFromCachedReceivedMessage, 0, 1) && callArg(copyToPayloadFromOffset, 0, 2) == callRes(DecodeBlockOption, 0, 1) * callRes(Size, 0, 0) && callArg(copyToPayloadFromOffset, 0, 0) == r && callArg(copyToPayloadFromOffset, 0, 1) == callRes(getPayloadFromCachedReceivedMessage, 0, 0)
+//@   ensures [other-blocks-change-nothing] called(getPayloadFromCachedReceivedMessage) && callRes(getPayloadFromCachedReceivedMessage, 0, 2) == nil && callRes(DecodeBlockOption, 0, 1) * callRes(Size, 0, 0) != callRes(getPayloadFromCachedReceivedMessage, 0, 1) ==> notCalled(copyToPayloadFromOffset) && notCalled(next)
+//@   ensures [complete-delivered-once] called(copyToPayloadFromOffset) && callRes(copyToPayloadFromOffset, 0, 1) == nil && !callRes(DecodeBlockOption, 0, 2) && err == nil ==> callCount(next) == 1 && callArg(next, 0, 1) == callRes(getCachedReceivedMessage, 0, 0) && called(Delete) && callSeq(Delete, 0) < callSeq(next, 0) && notCalled(SetMessage)
+//@   ensures [incomplete-not-delivered] called(getCachedReceivedMessage) && callRes(DecodeBlockOption, 0, 2) ==> notCalled(next)
+//@   ensures [asks-for-next-block] called(getCachedReceivedMessage) && callRes(DecodeBlockOption, 0, 2) && err == nil ==> callCount(SetMessage) == 1 && callCount(EncodeBlockOption) == 1 && callArg(EncodeBlockOption, 0, 0) == min(callRes(DecodeBlockOption, 0, 0), maxSzx) && callArg(EncodeBlockOption, 0, 2)
+//@   ensures [failure-forgets-transfer] err != nil && called(getCachedReceivedMessage) && callRes(getCachedReceivedMessage, 0, 2) == nil ==> called(Delete)
+//@   ensures [lock-given-back] called(getCachedReceivedMessage) && callRes(getCachedReceivedMessage, 0, 2) == nil ==> callCount(opaque) == 1 && callFn(opaque, 0) == callRes(getCachedReceivedMessage, 0, 1)
+//@   param next:
